@@ -99,6 +99,8 @@ prop("C14", "exploration",
          {"harness": "reg", "tags": ["gc_opt"], "args": {"quick": ["--n", "1200"], "thorough": ["--n", "20000"]}, "timeout": {"quick": 600, "thorough": 3000}},
          {"harness": "eng", "flavour": "shim", "args": {"quick": ["--mode", "c14"], "thorough": ["--mode", "c14"]}, "timeout": {"quick": 600, "thorough": 1800}},
          {"harness": "eng", "flavour": "shim", "tags": ["gc_opt"], "args": {"quick": ["--mode", "c14"], "thorough": ["--mode", "c14"]}, "timeout": {"quick": 600, "thorough": 1800}},
+         {"harness": "eng", "flavour": "shim", "args": {"quick": ["--mode", "c04", "--n", "15"], "thorough": ["--mode", "c04", "--n", "60"]}, "timeout": {"quick": 900, "thorough": 3400}},
+         {"harness": "eng", "flavour": "shim", "tags": ["gc_opt"], "args": {"quick": ["--mode", "c04", "--n", "15"], "thorough": ["--mode", "c04", "--n", "60"]}, "timeout": {"quick": 900, "thorough": 3400}},
      ],
      "Reference-model monitor over the package-internal registry in both build variants; lookups, counts, stored positions (fd2gfd/table/gfd agree) and iteration are "
      "checked after every step.",
@@ -398,7 +400,9 @@ RULE_ADDENDA = {
            "and re-reads them under pool traffic (a zone string living in returned memory changes).",
     "C14": "Added: iterations stopped by their callback after k entries, followed by 3-12 operations without any complete iteration; engine jobs "
            "(default and gc_opt) in which every injected epoll_ctl ADD failure of a connection being registered must leave "
-           "Engine.CountConnections equal to opened minus closed.",
+           "Engine.CountConnections equal to opened minus closed; the connection-lifecycle lives of C04 (default and gc_opt), in which "
+           "late requests on stale handles run while their descriptor numbers are re-used by new connections, whose registry entries must "
+           "stay intact; the registry is filled to exactly / just beyond the 65536-entry row boundary and drained completely in four orders.",
     "C15": "Added: the 32-bit binary runs a RoundRobin history of 2^31+9 assignments (N=3); LeastConnections engine lives contain registrations "
            "that fail (injected epoll_ctl ADD error), after which the choice must still be minimal; under SourceAddrHash connections to one "
            "address brought in through Engine.Register (connection only, connection plus an unrelated address in the context, address only) "
